@@ -309,6 +309,13 @@ public class BigZ {
         for (int i = 0; i < s.length(); i++) { char c = s.charAt(i); sb.append(c >= 'A' && c <= 'Z' ? (char) (c + 32) : c); }
         return new StringValue(sb.toString());
     }
+    /* middle product MP(a, m, b, n) of w-bit limb vectors */
+    public static Value ZMulMid(Value av, Value mv, Value bv, Value nv, Value wv) {
+        BigInteger a = Z(av), b = Z(bv); int m = I(mv), n = I(nv), w = I(wv);
+        BigInteger lm = BigInteger.ONE.shiftLeft(w).subtract(BigInteger.ONE), wm = BigInteger.ONE.shiftLeft(w * (m - n + 1)).subtract(BigInteger.ONE), r = BigInteger.ZERO;
+        for (int j = 0; j < n; j++) { BigInteger bj = b.shiftRight(w * j).and(lm); if (bj.signum() != 0) r = r.add(bj.multiply(a.shiftRight(w * (n - 1 - j)).and(wm))); }
+        return S(r);
+    }
     /* limbs helper: split non-negative a into n hex limbs of w bits, least significant first */
     public static Value ZLimbs(Value av, Value wv, Value nv) {
         BigInteger a = Z(av); int w = I(wv), n = I(nv);
